@@ -3057,3 +3057,11 @@ V(id='c37-erf-from-man-exp-default-rounding', prop='C37', file='mpmath/libmp/lib
   old="from_man_exp(s, -wp, wp, round_fast)", new="from_man_exp(s, -wp, wp)", expect='fire:Y-R10')
 V(id='c37-benign-from-man-exp-keyword-rounding', prop='C37', file='mpmath/libmp/gammazeta.py',
   old="        s = from_man_exp(s, sexp, wp, round_fast)\n", new="        s = from_man_exp(s, sexp, wp, rnd=round_fast)\n", expect='silent')
+
+# ---- C29 R-P3 absolute floor of the rank tolerance (seed C29-6) ----
+V(id='c29-rank-tolerance-purely-relative', prop='C29', file='mpmath/calculus/polynomials.py',
+  old="> 8*tol*max(1, abs(vals[b])))", new="> 8*tol*abs(vals[b]))", expect='fire:R-P3:ranks')
+V(id='c29-rank-tolerance-floor-zero', prop='C29', file='mpmath/calculus/polynomials.py',
+  old="> 8*tol*max(1, abs(vals[b])))", new="> 8*tol*max(0, abs(vals[b])))", expect='fire:R-P3:ranks')
+V(id='c29-benign-rank-tolerance-absolute', prop='C29', file='mpmath/calculus/polynomials.py',
+  old="> 8*tol*max(1, abs(vals[b])))", new="> 16*tol*max(abs(vals[a]), 1, abs(vals[b])))", expect='silent')
